@@ -294,3 +294,98 @@ inst!(c08_bndm_sparse_m64_n64_k0, 66, bndm_fixed_sparse::<64, 64, 0>());
 inst!(c08_bndm_sparse_m64_n64_k2, 66, bndm_fixed_sparse::<64, 64, 2>());
 inst!(c08_bndm_sparse_m64_n65_k3, 67, bndm_fixed_sparse::<64, 65, 3>());
 inst!(c08_bndm_sparse_m63_n64_k3, 66, bndm_fixed_sparse::<63, 64, 3>());
+
+// ---- structured CONCRETE patterns (nested borders / periodic / ruler words) x ALL texts of length N over a small alphabet.
+// The hard cases of exact matching live in the border structure of the pattern; with the pattern concrete the matcher's
+// tables (lps, shift, oracle transitions, masks) are constant-folded by CBMC and only the text scan is symbolic.
+pub fn occurs_at_s<const N: usize>(p: &[u8], t: &[u8; N], i: usize) -> bool {
+    let mut j = 0;
+    while j < p.len() {
+        if p[j] != t[i + j] {
+            return false;
+        }
+        j += 1;
+    }
+    true
+}
+pub fn expect_exact_s<const N: usize, I: Iterator<Item = usize>>(p: &[u8], t: &[u8; N], mut it: I) -> usize {
+    let mut hits = 0;
+    let mut i = 0;
+    while i + p.len() <= N {
+        if occurs_at_s(p, t, i) {
+            let got = it.next();
+            assert!(got == Some(i), "C08: missing, spurious or out-of-order occurrence");
+            hits += 1;
+        }
+        i += 1;
+    }
+    assert!(it.next().is_none(), "C08: spurious occurrence reported");
+    hits
+}
+#[cfg(kani)]
+pub fn text_over<const N: usize>(alpha: &[u8]) -> [u8; N] {
+    let mut t = [0u8; N];
+    let mut i = 0;
+    while i < N {
+        let k: usize = kani::any();
+        kani::assume(k < alpha.len());
+        t[i] = alpha[k];
+        i += 1;
+    }
+    t
+}
+/// WHICH: 0 ShiftAnd, 1 BNDM, 2 KMP, 3 Horspool, 4 BOM
+#[cfg(kani)]
+pub fn fixed_pat<const N: usize, const WHICH: u8>(p: &[u8], alpha: &[u8]) {
+    let t = text_over::<N>(alpha);
+    let hits = match WHICH {
+        0 => {
+            let m = ShiftAnd::new(p.iter());
+            expect_exact_s(p, &t, m.find_all(t.iter()))
+        }
+        1 => {
+            let m = BNDM::new(p.iter());
+            expect_exact_s(p, &t, m.find_all(&t[..]))
+        }
+        2 => {
+            let m = KMP::new(p);
+            let h = expect_exact_s(p, &t, m.find_all(t.iter()));
+            core::mem::forget(m);
+            h
+        }
+        3 => {
+            let m = Horspool::new(p);
+            let h = expect_exact_s(p, &t, m.find_all(&t[..]));
+            core::mem::forget(m);
+            h
+        }
+        _ => {
+            let m = BOM::new(p.iter());
+            let h = expect_exact_s(p, &t, m.find_all(&t[..]));
+            core::mem::forget(m);
+            h
+        }
+    };
+    kani::cover!(hits >= 1, "an occurrence exists");
+    kani::cover!(hits == 0, "no occurrence");
+}
+// pattern families: fib = Fibonacci word, ruler = abacabad, nest = abaabaa (three nested borders), aaa = unary, acag
+inst!(c08_kmp_fix_nest_n12, 258, fixed_pat::<12, 2>(b"abaabaa", b"abc"));
+inst!(c08_kmp_fix_ruler_n12, 258, fixed_pat::<12, 2>(b"abacabad", b"abcd"));
+inst!(c08_kmp_fix_fib_n12, 258, fixed_pat::<12, 2>(b"abaababa", b"abc"));
+inst!(c08_kmp_fix_aaa_n7, 258, fixed_pat::<7, 2>(b"aaa", b"ab"));
+inst!(c08_kmp_fix_acag_n8, 258, fixed_pat::<8, 2>(b"acag", b"acg"));
+inst!(c08_bndm_fix_nest_n10, 258, fixed_pat::<10, 1>(b"abaabaa", b"abc"));
+inst!(c08_bndm_fix_aaa_n6, 258, fixed_pat::<6, 1>(b"aaa", b"ab"));
+inst!(c08_bndm_fix_acag_n6, 258, fixed_pat::<6, 1>(b"acag", b"acg"));
+inst!(c08_bndm_fix_ruler_n10, 258, fixed_pat::<10, 1>(b"abacabad", b"abcd"));
+inst!(c08_shiftand_fix_nest_n12, 258, fixed_pat::<12, 0>(b"abaabaa", b"abc"));
+inst!(c08_shiftand_fix_aaa_n7, 258, fixed_pat::<7, 0>(b"aaa", b"ab"));
+inst!(c08_horspool_fix_nest_n10, 258, fixed_pat::<10, 3>(b"abaabaa", b"abc"));
+inst!(c08_horspool_fix_aaa_n6, 258, fixed_pat::<6, 3>(b"aaa", b"ab"));
+inst!(c08_horspool_fix_acag_n7, 258, fixed_pat::<7, 3>(b"acag", b"acg"));
+inst!(c08_horspool_fix_a_n3, 258, fixed_pat::<3, 3>(b"a", b"ab"));
+inst!(c08_bom_fix_nest_n10, 258, fixed_pat::<10, 4>(b"abaabaa", b"abc"));
+inst!(c08_bom_fix_aaa_n6, 258, fixed_pat::<6, 4>(b"aaa", b"ab"));
+inst!(c08_bom_fix_acag_n7, 258, fixed_pat::<7, 4>(b"acag", b"acg"));
+inst!(c08_bom_fix_a_n3, 258, fixed_pat::<3, 4>(b"a", b"ab"));
